@@ -1,6 +1,6 @@
 #!/bin/bash
 # Detection matrix: every seeded change x every check's quick tier (scratch worktrees, /repo untouched).
-OUT=/tmp/matrix.txt; : > $OUT
+OUT=${MATRIX_OUT:-/tmp/matrix.txt}; : > $OUT
 for d in /verif/seeded/*_m?/; do
   n=$(basename $d)
   echo "== $n" >> $OUT
